@@ -47,9 +47,11 @@ def cases(ctx):
         shp = gen.shape(rng)
         mode = str(rng.choice(["vec", "vec", "shape", "scalar", "list", "longvec"]))
         if mode == "longvec":  # a long 1-d vector in arbitrary order with repeats; ascending / descending variants too
-            thr = rng.choice(thr, int(rng.integers(1000, 3000)))
-            o = int(rng.integers(0, 3))
-            thr = thr if o == 0 else np.sort(thr) if o == 1 else np.sort(thr)[::-1].copy()
+            thr = rng.choice(thr, int(rng.choice([1000, 2500, 4096, 5000, 9000])) + int(rng.integers(0, 7)))
+            o = int(rng.integers(0, 4))
+            thr = thr if o in (0, 3) else np.sort(thr) if o == 1 else np.sort(thr)[::-1].copy()
+            if o == 3:  # the same many thresholds as a 2-d grid
+                thr = thr[: (len(thr) // 50) * 50].reshape(-1, 50)
         if mode == "shape":
             size = int(np.prod(shp)) if shp else 1
             thr = rng.choice(thr, size).reshape(shp) if size else np.zeros(shp)
